@@ -97,6 +97,22 @@ def chkFlush (d : D) : String :=
 
 def lostErr (d : D) : Bool := d.unreported
 
+/-- a commit that did not happen: execute()'s deferred cleanup rolls the flushed locks back when both bounds are set -/
+def cleanupAfter (d : D) (kind : String) : D × String :=
+  if d.s.cfg.layer && !d.s.pStart.isEmpty && !d.s.pEnd.isEmpty then
+    let rs := runOnRange d.splits d.s.pStart d.s.pEnd
+    ({ d with resolved := some (rs, false) },
+     s!"{kind} cleanup range {Bytes.toHex d.s.pStart} {Bytes.toHex d.s.pEnd} regions {regionsStr rs}")
+  else (d, kind)
+
+/-- every key sent in a Flush request lies in [pipelinedStart, pipelinedEnd) -/
+def chkRange (d : D) : String :=
+  if !d.s.cfg.layer then "ok" else
+  let bad := (d.s.lockKeys.filter (fun k => !inRange d.s.pStart d.s.pEnd k)).eraseDups
+  if bad.isEmpty then "ok" else
+  let sorted := (bad.map fun k => (k, ([] : Bytes))).foldr insertSorted []
+  s!"FAIL outside-range {Bytes.toHex d.s.pStart} {Bytes.toHex d.s.pEnd} {",".intercalate (sorted.map fun e => Bytes.toHex e.1)}"
+
 def doCommit (d : D) (mem : Nat) (l1 l2 : Completion) : D × String :=
   let (d1, o1) := apply d (.flush true mem l1)
   match o1 with
@@ -112,9 +128,9 @@ def doCommit (d : D) (mem : Nat) (l1 l2 : Completion) : D × String :=
           ({ d2 with resolved := some (rs, true) },
            s!"ok range {Bytes.toHex d2.s.pStart} {Bytes.toHex d2.s.pEnd} regions {regionsStr rs} primary {Bytes.toHex d2.s.primary}")
       else (d2, "ok")
-    | _ => (d2, "err wait")
-  | .errFlush => (d1, "err flush")
-  | .errStaging => (d1, "err staging")
+    | _ => cleanupAfter d2 "err wait"
+  | .errFlush => cleanupAfter d1 "err flush"
+  | .errStaging => cleanupAfter d1 "err staging"
   | _ => (d1, "bad-op")
 
 def doRollback (d : D) (l : Completion) : D × String :=
@@ -219,6 +235,7 @@ def step (d : D) (line : String) : D × String :=
     | _ => (d, "bad-op")
   | ["chk-flush"] => (d, chkFlush d)
   | ["chk-covered"] => (d, chkCovered d)
+  | ["chk-range"] => (d, chkRange d)
   | _ => (d, "bad-op")
 
 def main : IO Unit := runDriver ({} : D) step
